@@ -362,9 +362,33 @@ def run(ctx):
                 if e.name == "std::iter::Iterator::next":
                     bad = bad or "the averaging loop is driven by an iterator (an exit other than history exhausted / window start)"
             r = N(ix, sym.unwrap(p.ret))
+            # what the path knows about the interval and the length of the history
+            interval_zero = None
+            justified = False
+            for (at, o, _b, _l) in p.conds:
+                ai = ix.inline(at)
+                if tag(ai) == "op" and payload(ai)[0] in ("eq", "ne") and len(kids(ai)) == 2 and o in (True, False):
+                    is_eq = (payload(ai)[0] == "eq") == o
+                    ks = kids(ai)
+                    if interval in ks and any(tag(k) == "int" and payload(k)[0] == "0" for k in ks):
+                        interval_zero = is_eq
+                    if is_eq and any(tag(k) == "int" and payload(k)[0] == "1" for k in ks) and interval not in ks:
+                        justified = True     # a single snapshot / the first round: nothing to average
+                if tag(ai) == "op" and payload(ai)[0] in ("le", "lt", "ge", "gt") and o in (True, False) and len(kids(ai)) == 2:
+                    # the latest observation is not younger than the start of the window (now - interval)
+                    sh = sym.show(ai, 6)
+                    if "timestamp" in sh and sym.show(interval, 2) in sh:
+                        older = (payload(ai)[0] in ("le", "lt")) == o
+                        l_is_ts = "timestamp" in sym.show(kids(ai)[0], 5)
+                        if older == l_is_ts:
+                            justified = True
             if r[0] != "div":
                 n_single += 1
+                if not (interval_zero is True or justified):
+                    bad = bad or "a single observed price is answered without the interval being zero, the history holding one observation, or the latest observation predating the window"
                 continue
+            if interval_zero is True:
+                bad = bad or "the average is computed only when the interval IS zero"
             env["$facts"] = [(payload(ix.inline(at))[0], ix.inline(kids(ix.inline(at))[0]), ix.inline(kids(ix.inline(at))[1]), o)
                              for (at, o, _b, _l) in p.conds if o in (True, False) and tag(ix.inline(at)) == "op" and payload(ix.inline(at))[0] in ("le", "lt", "ge", "gt") and len(kids(ix.inline(at))) == 2]
             n_avg += 1
